@@ -98,3 +98,12 @@ pub fn order_marker(sm: &sourcemap::SourceMap) -> &'static str {
     }
     ""
 }
+
+
+/// every way of reading a token's positions must tell the same story: the pair accessors and the tuple are thin
+/// wrappers over the single accessors (which include the range offset of a lookup, C07)
+pub fn token_accessors_agree(t: &sourcemap::Token<'_>) -> bool {
+    t.get_src() == (t.get_src_line(), t.get_src_col())
+        && t.get_dst() == (t.get_dst_line(), t.get_dst_col())
+        && t.to_tuple() == (t.get_source().unwrap_or(""), t.get_src_line(), t.get_src_col(), t.get_name())
+}
